@@ -134,14 +134,20 @@ EXTRA = {
     'C05': '; failing decodes (incl. 48-level deep faults) interleaved, '
            'frames above the default frame-max, configuration shards',
     'C06': '; frames above frame-max in streams, one bytearray consumed in '
-           'place, configuration shards',
-    'C07': '; payload-less and > frame-max frames, one bytearray grown in '
-           'place, configuration shards incl. python -O',
+           'place, every successful decode of a mutated input repeated with '
+           'the bytes after its consumed count removed / replaced, '
+           'configuration shards',
+    'C07': '; payload-less and > frame-max frames, prefixes of frames the '
+           'decoder must refuse, one bytearray grown in place, configuration '
+           'shards incl. python -O',
     'C08': '; deep-fault and multi-level length-skew frames, retained-memory '
            'sequences, shards under python -O',
-    'C09': '; deep-fault frames, shards under -W error / -O / DEBUG logging',
-    'C10': '; narrow decimal contexts, in-place change then re-marshal, '
-           'configuration shards',
+    'C09': '; deep-fault frames, faults under keys special to str.format / % '
+           '/ Template, shards under -W error / -O / DEBUG logging',
+    'C10': '; hostile values in every attribute of the non-method frames and '
+           'as the channel, encoder output that the decoder refuses is a '
+           'violation, narrow decimal contexts, in-place change then '
+           're-marshal, configuration shards',
     'C11': '; 12-element int arrays, toggle by direct assignment, '
            'configuration shards',
     'C12': '; colliding truncated keys, in-place change vs fresh object, '
@@ -149,8 +155,9 @@ EXTRA = {
     'C13': '; three marshal attempts per object, shards under -O / -W error '
            '/ DEBUG logging',
     'C14': '; walk -> ordinary use of every class (repr, logging, copy, '
-           'encode, decode, k-th argument faults, client subclasses) -> walk '
-           'again; foreign-environment shard',
+           'encode with defaults and with every bit set / cleared, decode, '
+           'k-th argument faults, client subclasses) -> walk again; '
+           'foreign-environment shard',
     'C16': '; failure-storm amplification, cold concurrent first use of '
            'every class, long pauses, toggle by assignment (module-state '
            'changes are evidence, not verdicts)',
